@@ -174,7 +174,7 @@ fn gen_nested(rng: &mut Rng, size: usize) -> Nested {
     let mut budget = size as i64;
     let mut rows = Vec::new();
     let mut names = Vec::new();
-    while budget > 0 && rng.chance(5, 6) {
+    while budget > 0 && !rng.chance(1, 4 + size as u64 / 25) {
         if rng.chance(1, 2) {
             let n = rng.below((budget as u64 / 4).min(40) + 1) as usize;
             rows.push((0..n).map(|_| rng.next() as u32).collect());
@@ -687,18 +687,20 @@ fn do_rpc(w: &mut CaseWriter, ctx: &Ctx, ops: &Ops, bytes: &[u8]) {
     let acc = acceptable(ops.fixed, bytes);
     // The server casts what `DataView::using` accepts and the handler then reads
     // through that cast.  If `using` accepts bytes that are shorter than the
-    // archived type the read is outside the buffer (undefined behaviour, observed
+    // archived type, or whose checksum does not match, the handler's reads are
+    // outside the buffer or through damaged pointers (undefined behaviour, observed
     // as a segmentation fault), so such a request is reported and not sent.
-    if acc == Err("accepts-short-frame") && (ops.using)(bytes) == Verdict::Ok {
+    if acc.is_err() && (ops.using)(bytes) == Verdict::Ok {
         w.case(&case, "handled-out-of-bounds");
         w.stats.hit("rpc_not_sent_unsafe");
         w.fail(
             "handler-ran-on-refusable-frame",
             &case,
             &format!(
-                "DataView::using accepts {} bytes for an archived type of {} bytes; the handler would read outside the request buffer (not sent)",
+                "DataView::using accepts these {} bytes (archived type: {} bytes, oracle: {:?}); the handler would read damaged data or outside the request buffer (not sent)",
                 bytes.len(),
-                ops.fixed
+                ops.fixed,
+                acc
             ),
         );
         return;
@@ -1061,9 +1063,9 @@ fn main() {
     //    (b) one or more medium frames with the model (cost grows with the square)
     if !light {
         let medium: &[(&str, usize)] = if thorough {
-            &[("nested", 700), ("text", 1000), ("blob", 2000), ("status", 700)]
+            &[("nested", 700), ("text", 1000), ("blob", 2000), ("status", 700), ("nested", 3000)]
         } else {
-            &[("nested", 700), ("text", 500)]
+            &[("nested", 700), ("text", 500), ("blob", 1024)]
         };
         for (name, size) in medium {
             let o = find(&ops, name).unwrap();
